@@ -17,7 +17,7 @@ EXPLANATION = (
     "size assert precedes returning the string. NOT decided: foreign output containing '}' after a report on the same line; "
     "numeric equality of converted numpy scalars.")
 
-FLOOR = {"S1": 4, "S2": 2, "S3": 2, "S4": 3, "S5": 2}
+FLOOR = {"S1": 5, "S2": 2, "S3": 2, "S4": 3, "S5": 2}
 
 
 def fold_str(ctx, f, e):
@@ -103,6 +103,21 @@ def s1(ctx, rep):
             sub[1][0] in (sc.MAX_REPEAT,) and list(sub[1][1][2]) == [(sc.ANY, None)]
     rep.put(ok, "S1", "agreement", "report regex: one capture group `{.*}` on one line, no flags", r, fa[0], pat,
             f"regex {pat!r} does not capture exactly one single-line JSON object")
+    # the searched text is the whole captured output: the parameter joined with newlines, nothing filtered out, and
+    # the pattern is searched (findall), not anchored at line starts - reports may follow other output on the same line
+    param = [p for p in r.params][0]
+    txt = fa[0].args[1]
+    if isinstance(txt, ast.Name):
+        ds = [d for d in local_defs(r, txt.id) if not isinstance(d, tuple)]
+        txt = ds[0] if len(ds) == 1 else txt
+    whole = isinstance(txt, ast.Call) and fn_name(txt) == "join" and len(txt.args) == 1 and isinstance(txt.args[0], ast.Name) \
+        and txt.args[0].id == param and not [d for d in local_defs(r, param)]
+    anchored = any(it[0] == sc.AT for it in rest) or pat.startswith("^")
+    rep.put(whole and not anchored and fn_name(fa[0]) in ("findall", "finditer"), "S1", "taint",
+            "retrieve: the pattern is searched over the entire captured output (no pre-filter, not anchored)", r, fa[0],
+            f"findall over `{U(txt)}`",
+            f"the text searched is `{U(txt)[:80]}`, not the whole of `{param}` joined: lines are filtered (or the pattern anchored) "
+            "before the search, so a report that follows other output on the same line is dropped")
     # payload parsed with json.loads and appended in match order
     loop = [n for n in walk_shallow(r.node) if isinstance(n, ast.For) and n.iter is fa[0]]
     ok = False
